@@ -292,6 +292,8 @@ func runC19(c *eng.Ctx) {
 	// ---- R19.5 routes to disabled
 	c.Rule("R19.5", "K6")
 	ruleTelemetrySectionIsTakenKeyByKey(c)
+	c.Rule("R19.2", "K2")
+	ruleStopAlwaysStopsTheCollector(c)
 	// (file) key agreement for telemetry.enabled
 	if fn := c.Fn("server.parseTelemetryConfig"); fn != nil {
 		ok := false
@@ -340,7 +342,7 @@ func runC19(c *eng.Ctx) {
 		}
 		repl := eng.CallsIn(fn, viperPkg+".Viper.SetEnvKeyReplacer")
 		for _, r := range eng.Returns(fn) {
-			if len(r.Results) == 2 && eng.NilConst(r.Results[1]) {
+			if len(eng.RetVals(r)) == 2 && eng.NilConst(eng.RetVals(r)[1]) {
 				g, w := eng.PrecededBy(fn, r, func(x ssa.Instruction) bool { return binding != nil && x == binding })
 				c.Check(g && binding != nil, "environment route: binding in effect for every returned config", c.Pos(r), "every successful return passes the binding of the LIFTBRIDGE_* variables (BindEnv for every key of configKeys)", "NewConfig can return a config without having bound the environment (path "+w.String()+"): LIFTBRIDGE_* variables, including the documented switch for telemetry, are ignored when no config file is given")
 			}
